@@ -116,7 +116,7 @@ package channel
 //@   ensures #success-means-echo-seen result.1 == nil ==> contains(window(result.0, (2 * len(b) > c.PromptSearchDepth ? 2 * len(b) : c.PromptSearchDepth)), b)
 //@   loop 1 invariant RI(c.Q) && rd == old(rd) ++ rb
 
-//@ func (*Channel).ReadUntilFuzzy [C01 C05 C06]
+//@ func (*Channel).ReadUntilFuzzy [C01 C05 C06 C12]
 //@   requires RI(c.Q) && c.PromptSearchDepth >= 0 && len(b) <= 4611686018427387903
 //@   modifies rd, c.Q.queue, c.Q.depth, chan(c.Q.depthChan)
 //@   ensures #ri RI(c.Q)
